@@ -71,6 +71,7 @@ struct SockStats {
     int fd = -1;
     int ordinal = -1;       // creation order among fd-owning stream sockets
     int conn_id = -1;       // id of the simulated connection (ActorSock::id() of the other end)
+    int port = 0;           // destination port of a socket created by connect()
     u64 send_calls = 0, send_eagain = 0, send_short = 0;
     u64 bytes_accepted = 0; // bytes accepted from the application by send/sendfile
     u64 recv_calls = 0, bytes_received = 0;
